@@ -183,6 +183,13 @@ def r14_1(chk: Check) -> None:
         chk.ob("R14.1", fl.where(), "newFromDirectory receives (directory, self.grid, self.basisN, self.offEqParticles)",
                all(g is not None and eqx(g, w, cl) for g, w in zip(got, want)) and (extra is None or eqx(extra, "True", cl)), str([n(g) if g is not None else None for g in got]),
                key="load-args")
+    # every normal exit of loadCollisions has installed a freshly loaded array: no early return leaves an array from an earlier load in place
+    # (for another particle list / other files in the same directory) without raising
+    gl = CFG(fl.node)
+    inst = [gl.node_of(st) for st in stores]
+    okx = bool(inst) and all(x is not None for x in inst) and gl.must_pass(CFG.ENTRY, CFG.EXIT, lambda q: any(q is x for x in inst))
+    chk.ob("R14.1", fl.where(), "loadCollisions returns normally only after installing the array it has just loaded (the solver never keeps an array "
+           "that was loaded for other particles or files)", okx, key="install-on-every-exit")
     # handlers must not swallow the error
     swallowed = []
     for x in own_nodes(fl.node):
@@ -191,7 +198,7 @@ def r14_1(chk: Check) -> None:
             if g.reaches([CFG.ENTRY], CFG.EXIT):
                 swallowed.append(n(x.type) if x.type else "bare")
     chk.ob("R14.1", fl.where(), "loadCollisions re-raises the load error", not swallowed, str(swallowed), key="reraise")
-    chk.floor("R14.1", 8)
+    chk.floor("R14.1", 9)
 
 
 def r14_2(chk: Check) -> None:
@@ -743,9 +750,7 @@ def r14_6(chk: Check) -> None:
 
 def rules(chk: Check) -> None:
     chk.src.cls(CA)
-    r14_1(chk)
-    r14_6(chk)
-    r14_2(chk)
-    r14_3(chk)
-    r14_4(chk)
-    r14_5(chk)
+    for grp in (r14_1, r14_6, r14_2, r14_3, r14_4, r14_5):
+        chk.stage(grp, chk)
+    from .shared import called_for_effect_mutates
+    chk.stage(called_for_effect_mutates, chk, "R14.3", "changeBasis")
